@@ -55,7 +55,7 @@ Case(cls, sw, apx, mut, transit, rel) ==
              rel |-> rel, ok |-> ImplOK(cls, mut, rel), propok |-> PropOK(cls, mut, rel),
              clearOnWire |-> (cls = "signed")]
 
-Next == \E cls \in Classes, sw \in BOOLEAN, apx \in BOOLEAN, mut \in Regions \cup {"none"},
+Next == phase = "start" /\ \E cls \in Classes, sw \in BOOLEAN, apx \in BOOLEAN, mut \in Regions \cup {"none"},
            transit \in BOOLEAN, rel \in Rels : Case(cls, sw, apx, mut, transit, rel)
 Spec == Init /\ [][Next]_vars
 
